@@ -736,7 +736,74 @@ func (c *ctx) p2pCases() {
 		}
 	}
 	_ = pubsub.DefaultMaxMessageSize
+	c.receiverSizes(r, ctx, h1, t1, h2, t2)
 	c.sendBursts(r, ctx, t1, sub2)
+}
+
+// receiverSizes: p2psender -> pubsub -> a real announce.Receiver as the decoder, for message
+// sizes across the encoder's caps (below the pubsub limit of 1 MiB): what the consumer of the
+// receiver gets is the CID and the addresses that were sent, whatever the size.
+func (c *ctx) receiverSizes(r *vlib.Rand, ctx context.Context, h1 host.Host, t1 *pubsub.Topic, h2 host.Host, t2 *pubsub.Topic) {
+	rc, err := announce.NewReceiver(h2, "", announce.WithTopic(t2))
+	if err != nil {
+		panic(err)
+	}
+	defer rc.Close()
+	other := genPeer(r)
+	type shape struct{ extra, addrs int }
+	shapes := []shape{{0, 0}, {100, 1}, {4000, 2}, {4096, 0}, {5000, 3}, {65536, 1}, {900 << 10, 2}, {0, 300}, {10, 2000}, {5000, 40}}
+	for _, sh := range shapes {
+		for _, withOrig := range []bool{false, true} {
+			if withOrig && sh.extra > 70000 {
+				continue
+			}
+			m := message.Message{Cid: mustCast(rawCidV1(0x55, 0x12, r.Bytes(32)))}
+			var wantAddrs [][]byte
+			for k := 0; k < sh.addrs; k++ {
+				a := genKnownAddr(r, other)
+				if strings.Contains(a.Text, "/p2p/") {
+					a = genKnownAddr(r, other)
+				}
+				m.Addrs = append(m.Addrs, a.B)
+				wantAddrs = append(wantAddrs, a.B)
+			}
+			exd := patterned(r, sh.extra)
+			wantPeer := h1.ID()
+			if withOrig {
+				m.OrigPeer = samplePeers[0]
+				wantPeer, _ = peer.Decode(samplePeers[0])
+			}
+			s, err := p2psender.New(nil, "", p2psender.WithTopic(t1), p2psender.WithExtraData(exd))
+			if err != nil {
+				panic(err)
+			}
+			c.Eval()
+			c.Count("p2p:to-real-receiver")
+			enc := runEnc(&message.Message{Cid: m.Cid, Addrs: m.Addrs, ExtraData: exd, OrigPeer: m.OrigPeer})
+			sig := fmt.Sprintf("extra=%d,addrs=%d,orig=%v", sh.extra, sh.addrs, withOrig)
+			if err := s.Send(ctx, m); err != nil {
+				c.failOnce("p2p-receiver-send", "p2p-to-receiver:send-error:"+sig, err.Error(), burstReplay)
+				continue
+			}
+			nctx, ncancel := context.WithTimeout(ctx, 4*time.Second)
+			a, err := rc.Next(nctx)
+			ncancel()
+			if err != nil {
+				c.failOnce("p2p-receiver-lost", "p2p-to-receiver:not-delivered:"+sig,
+					fmt.Sprintf("a message of %d bytes (within the encoder's caps, below the pubsub limit) sent by p2psender was not delivered by the receiver: %v", len(enc.Bytes), err), burstReplay)
+				continue
+			}
+			ok := a.Cid == m.Cid && a.PeerID == wantPeer && len(a.Addrs) == len(wantAddrs)
+			for k := 0; ok && k < len(wantAddrs); k++ {
+				ok = bytes.Equal(a.Addrs[k].Bytes(), wantAddrs[k])
+			}
+			if !ok {
+				c.failOnce("p2p-receiver-differs", "p2p-to-receiver:differs:"+sig, "the receiver delivered a different announcement than was sent", burstReplay)
+			} else {
+				c.Nontrivial("p2p-receiver:" + sig)
+			}
+		}
+	}
 }
 
 // replays of the burst scenarios re-run all of them (they are seeded and take ~2 s)
